@@ -54,6 +54,10 @@ Definition can_start (t : gtab) (c : str) : bool := in_set c (g_starts t) || in_
 (* ---------------------------------------------------------------- options (cane.py:345-347; warn=False) *)
 Record opts := { o_complete : bool; o_check_start : option bool; o_check_stop : bool; o_final_stop : option bool;
                  o_astop : byte; o_gap : option byte; o_gap_after : option Z }.
+Definition mk_opts (complete : bool) (check_start : option bool) (check_stop : bool) (final_stop : option bool)
+  (astop : byte) (gap : option byte) (gap_after : option Z) : opts :=
+  {| o_complete := complete; o_check_start := check_start; o_check_stop := check_stop; o_final_stop := final_stop;
+     o_astop := astop; o_gap := gap; o_gap_after := gap_after |}.
 (* cane.py:374, 376 *)
 Definition eff_check_start (o : opts) : bool :=
   match o_check_start o with Some b => b | None => negb (o_complete o) end.
@@ -301,7 +305,8 @@ Definition show_type (y : stype) : val := match y with NT => VS (bs "nt"%bs) | A
 Definition show_seq (q : bioseq) : val := VL [VS (b_data q); show_type (b_type q)].
 (* op 0: cane.translate(str) -> str / ValueError
    op 1: BioSeq(s, type='nt').translate() -> [data, type] / ValueError
-   op 2: BioBasket([BioSeq(s), BioSeq(s[3:])]).translate() -> [None | 'ValueError', [[data, type], [data, type]]] (state after the call) *)
+   op 2: BioBasket([BioSeq(s), BioSeq(s[3:])]).translate() -> [None | 'ValueError', [[data, type], [data, type]]] (state after the call)
+   op 6: cane.translate(BioSeq(s, type='nt')) -> str / ValueError *)
 Definition run_C07 (op : N) (tt : N) (o : opts) (s : str) : val :=
   match lookup_tab tt tabs with
   | None => VL [VB false; VE (bs "KeyError"%bs)]
@@ -310,11 +315,200 @@ Definition run_C07 (op : N) (tt : N) (o : opts) (s : str) : val :=
       else if N.eqb op 1 then
         VL [VB (wf_C07 t o (map upper1 s));
             match bioseq_translate t o (bioseq_new s) with inl q => show_seq q | inr _ => VE (bs "ValueError"%bs) end]
+      else if N.eqb op 6 then      (* cane.translate(BioSeq(s, type='nt'), ...): str(seq) is the upper-cased data *)
+        VL [VB (wf_C07 t o (map upper1 s)); show_res (translate t o (b_data (bioseq_new s)))]
       else
         let (b, e) := basket_translate t o [bioseq_new s; bioseq_new (skipn 3 s)] in
         VL [VB (wf_C07 t o (map upper1 s));
             VL [match e with None => VNone | Some _ => VS (bs "ValueError"%bs) end; VL (map show_seq b)]]
   end.
+(* ---------------------------------------------------------------- command line entry point (sugar/scripts.py)
+   sugar translate [-tt N | --translation-table N] [-c | --complete] <nucleotide string | sequence file>
+   scripts.py:192-194: -tt has type=int, default=1, dest='tt' (argparse: the last occurrence wins); -c is store_true.
+   No other option of cane.translate can be given on the command line: they keep the defaults of the signature. *)
+Inductive cli_arg := ATt (n : N) | AComplete.
+Definition cli_tt (args : list cli_arg) : N :=
+  fold_left (fun acc a => match a with ATt n => n | AComplete => acc end) args 1%N.
+Definition cli_complete (args : list cli_arg) : bool :=
+  existsb (fun a => match a with AComplete => true | ATt _ => false end) args.
+(* the defaults of the signature, cane.py:364-366 *)
+Definition default_opts (complete : bool) : opts :=
+  mk_opts complete None false None "X"%byte (Some "-"%byte) (Some 2%Z).
+Definition cli_opts (args : list cli_arg) : opts := default_opts (cli_complete args).
+
+(* str.splitlines() on texts whose only line boundary is "\n" (scripts.py:68) *)
+Definition cNL : byte := x0a.
+Fixpoint splitlines_aux (cur : str) (l : str) : list str :=
+  match l with
+  | [] => match cur with [] => [] | _ :: _ => [rev cur] end
+  | x :: r => if byte_eqb x cNL then rev cur :: splitlines_aux [] r else splitlines_aux (x :: cur) r
+  end.
+Definition splitlines (l : str) : list str := splitlines_aux [] l.
+(* the other characters str.splitlines() splits at (Latin-1): \n \v \f \r FS GS RS NEL *)
+Definition is_linebreak (b : byte) : bool := has b [x0a; x0b; x0c; x0d; x1c; x1d; x1e; x85].
+Definition lines_ok (o : opts) : bool :=
+  negb (is_linebreak (o_astop o)) && match o_gap o with Some g => negb (is_linebreak g) | None => true end.
+
+(* for x in xs: print(f(x)) -- the first failing element ends the loop with its error *)
+Fixpoint map_res (f : str -> res) (ls : list str) : list str + err :=
+  match ls with
+  | [] => inl []
+  | l :: r => match f l with
+              | Err e => inr e
+              | Ok a => match map_res f r with inl x => inl (a :: x) | inr e => inr e end
+              end
+  end.
+(* scripts.py:66-70: string input, one translation per line *)
+Definition script_str (t : gtab) (o : opts) (s : str) : list str + err := map_res (translate t o) (splitlines s).
+(* scripts.py:64,77: file input: read() gives a basket, seqs.translate(.. kw) *)
+Definition script_recs (t : gtab) (o : opts) (recs : list str) : list bioseq * option err :=
+  basket_translate t o (map bioseq_new recs).
+Definition opts_ok (t : gtab) (o : opts) : bool :=
+  gap_sym_ok t o && gap_after_ok o && match o_gap o with None => true | Some g => negb (is_nt g) end.
+Definition wf_script_str (t : gtab) (o : opts) (s : str) : bool :=
+  opts_ok t o && lines_ok o && forallb (wf_C07 t o) (splitlines s).
+Definition wf_script_recs (t : gtab) (o : opts) (recs : list str) : bool :=
+  opts_ok t o && forallb (fun r => wf_C07 t o (map upper1 r)) recs.
+
+(* gcode(tt) looks the table up by str(tt) among the keys of gc.json (data/__init__.py:140): tt may be an int or its decimal string *)
+Inductive ttarg := TInt (n : N) | TStr (s : str).
+Definition dec_N (n : N) : str := dec_of_Z (Z.of_N n).
+Definition tt_key (a : ttarg) : str := match a with TInt n => dec_N n | TStr s => s end.
+Fixpoint lookup_key (k : str) (l : list (N * gtab)) : option (N * gtab) :=
+  match l with [] => None | (i, t) :: r => if str_eqb (dec_N i) k then Some (i, t) else lookup_key k r end.
+Definition gcode_lookup (a : ttarg) : option (N * gtab) := lookup_key (tt_key a) tabs.
+
+Definition show_err (e : option err) : val := match e with None => VNone | Some _ => VS (bs "ValueError"%bs) end.
+Definition key_error : val := VE (bs "KeyError"%bs).
+Definition show_lines (r : list str + err) : val :=
+  match r with inl ls => VL (map VS ls) | inr _ => VE (bs "ValueError"%bs) end.
+(* string input through scripts.translate / scripts.run / cli: the printed lines, or an error *)
+Definition run_C07_str (tt : N) (o : opts) (s : str) : val :=
+  match lookup_tab tt tabs with
+  | None => VL [VB false; key_error]
+  | Some t => VL [VB (wf_script_str t o s); show_lines (script_str t o s)]
+  end.
+(* a list of records (file input, or BioBasket(...).translate directly): [None | 'ValueError', states after the call] *)
+Definition run_C07_recs (tt : N) (o : opts) (recs : list str) : val :=
+  match lookup_tab tt tabs with
+  | None => VL [VB false; key_error]
+  | Some t => let (b, e) := script_recs t o recs in
+              VL [VB (wf_script_recs t o recs); VL [show_err e; VL (map show_seq b)]]
+  end.
+Definition run_C07_cli_str (args : list cli_arg) (s : str) : val := run_C07_str (cli_tt args) (cli_opts args) s.
+Definition run_C07_cli_recs (args : list cli_arg) (recs : list str) : val := run_C07_recs (cli_tt args) (cli_opts args) recs.
+(* any single-call entry point with the table named by an int or a str *)
+Definition run_C07_key (a : ttarg) (op : N) (o : opts) (s : str) : val :=
+  match gcode_lookup a with
+  | None => VL [VB false; key_error]
+  | Some (k, _) => run_C07 op k o s
+  end.
+
+(* ---- specification side of the command line *)
+(* the table a command line names: the LAST -tt occurrence, table 1 without one *)
+Fixpoint last_tt (args : list cli_arg) : option N :=
+  match args with
+  | [] => None
+  | a :: r => match last_tt r with
+              | Some n => Some n
+              | None => match a with ATt n => Some n | AComplete => None end
+              end
+  end.
+(* "\n".join(lines) *)
+Fixpoint join_nl (ls : list str) : str :=
+  match ls with [] => [] | [l] => l | l :: r => l ++ cNL :: join_nl r end.
+Definition no_nl (l : str) : bool := forallb (fun x => negb (byte_eqb x cNL)) l.
+Definition mk_aa (a : str) : bioseq := {| b_data := a; b_type := AA |}.
+
+(* ---------------------------------------------------------------- warn=True (cane.py:397, 413-426, 433-434, 436-441, 449-457)
+   The same loop with the warnings it emits, in order. The result component is proved equal to [translate] (C07_warn_irrelevant). *)
+Inductive wkind :=
+| WNotStart          (* cane.py:419  'Codon ... is not a start codon' (check_start off) *)
+| WMaybeNotStart     (* cane.py:426  'Codon ... possibly is not a start codon' (in astarts only) *)
+| WMaybeStop         (* cane.py:434  'Codon ... might be a stop codon' *)
+| WStopNotLast       (* cane.py:441  'First stop codon is not at the end of the sequence' *)
+| WNoStop            (* cane.py:454  'Last codon ... is not a stop codon' *)
+| WMaybeNoStop.      (* cane.py:457  unreachable: the left-over codon has fewer than three letters *)
+Record stw := { w_st : st; w_csw : bool (* check_start_warn *); w_ws : list wkind (* reversed *) }.
+(* the part of the loop body that runs when a codon is complete (cane.py:412-447): cod1 the codon, res1 the residues that
+   follow, a1 / n2 the output and the gap counter after the gap symbol of this round *)
+Definition codon_w (t : gtab) (o : opts) (warn : bool) (s : stw) (cod1 : str) (res1 : nat) (a1 : list byte) (n2 : Z)
+  : stw + (res * list wkind) :=
+  let s0 := w_st s in
+  (* 413-421 *)
+  let look := w_csw s || cs s0 in
+  let nostart := negb (can_start t cod1) in
+  if look && nostart && cs s0 then inr (Err ENoStart, rev (w_ws s)) else
+  let ws1 := if look && nostart then WNotStart :: w_ws s else w_ws s in
+  let csw1 := if look && nostart then false else w_csw s in
+  (* 422-426 *)
+  let ws2 := if csw1 && negb (in_set cod1 (g_starts t)) then WMaybeNotStart :: ws1 else ws1 in
+  (* 427-434 *)
+  let aa := aa_of t (o_astop o) cod1 in
+  let ws3 := if in_set cod1 (g_astops t) && warn then WMaybeStop :: ws2 else ws2 in
+  (* 435-445 *)
+  if is_stop t cod1 then
+    if (o_check_stop o || warn) && Nat.leb 3 res1 && o_check_stop o then inr (Err EStopNotLast, rev ws3) else
+    let ws4 := if (o_check_stop o || warn) && Nat.leb 3 res1 then WStopNotLast :: ws3 else ws3 in
+    if negb (Nat.leb 3 res1) || negb (o_complete o) then
+      inr (Ok (rev (if eff_final_stop o then aa :: a1 else a1)), rev ws4)
+    else inl {| w_st := {| aas := aa :: a1; ngap := n2; codon := []; cs := false; nres := res1 |}; w_csw := false; w_ws := ws4 |}
+  else inl {| w_st := {| aas := aa :: a1; ngap := n2; codon := []; cs := false; nres := res1 |}; w_csw := false; w_ws := ws3 |}.
+Definition step_w (t : gtab) (o : opts) (warn : bool) (s : stw) (x : byte) : stw + (res * list wkind) :=
+  let s0 := w_st s in
+  let n1   := if is_gap o x then (ngap s0 + 1)%Z else ngap s0 in
+  let cod1 := if is_gap o x then codon s0 else codon s0 ++ [x] in
+  let res1 := if is_gap o x then nres s0 else pred (nres s0) in
+  let a1 := fst (emit_gap o (aas s0) n1) in
+  let n2 := snd (emit_gap o (aas s0) n1) in
+  if Nat.eqb (length cod1) 3 then codon_w t o warn s cod1 res1 a1 n2
+  else inl {| w_st := {| aas := a1; ngap := n2; codon := cod1; cs := cs s0; nres := res1 |}; w_csw := w_csw s; w_ws := w_ws s |}.
+Fixpoint go_w (t : gtab) (o : opts) (warn : bool) (s : stw) (l : str) : res * list wkind :=
+  match l with
+  | [] =>
+      let inast := in_set (codon (w_st s)) (g_astops t) in
+      if (o_check_stop o || warn) && negb inast then
+        if o_check_stop o then (Err ENoStop, rev (w_ws s)) else (Ok (rev (aas (w_st s))), rev (WNoStop :: w_ws s))
+      else if warn && inast then (Ok (rev (aas (w_st s))), rev (WMaybeNoStop :: w_ws s))
+      else (Ok (rev (aas (w_st s))), rev (w_ws s))
+  | x :: l' => match step_w t o warn s x with inl s' => go_w t o warn s' l' | inr r => r end
+  end.
+Definition translate_w (t : gtab) (o : opts) (warn : bool) (l : str) : res * list wkind :=
+  go_w t o warn {| w_st := init o (u2t l); w_csw := warn; w_ws := [] |} (u2t l).
+
+(* specification of the warnings on gap-free input, codon by codon (what the docstring of warn promises, made exact) *)
+Fixpoint spec_warns_go (t : gtab) (o : opts) (warn : bool) (cs : list str) : list wkind :=
+  match cs with
+  | [] => if warn && negb (o_check_stop o) then [WNoStop] else []
+  | c :: rest =>
+      let last := match rest with [] => true | _ => false end in
+      let ms := if warn && in_set c (g_astops t) then [WMaybeStop] else [] in
+      if is_stop t c then
+        if negb last && o_check_stop o then ms                                  (* raises here *)
+        else let sl := if warn && negb last then [WStopNotLast] else [] in
+             if last || negb (o_complete o) then ms ++ sl                       (* the translation ends here *)
+             else ms ++ sl ++ spec_warns_go t o warn rest
+      else ms ++ spec_warns_go t o warn rest
+  end.
+Definition spec_warns (t : gtab) (o : opts) (warn : bool) (cs : list str) : list wkind :=
+  match cs with
+  | [] => spec_warns_go t o warn []
+  | c :: _ =>
+      if can_start t c then
+        (if warn && negb (in_set c (g_starts t)) then [WMaybeNotStart] else []) ++ spec_warns_go t o warn cs
+      else if eff_check_start o then []                                         (* raises at once *)
+      else (if warn then [WNotStart] else []) ++ spec_warns_go t o warn cs
+  end.
+Definition wkind_code (w : wkind) : Z :=
+  match w with WNotStart => 1 | WMaybeNotStart => 2 | WMaybeStop => 3 | WStopNotLast => 4 | WNoStop => 5 | WMaybeNoStop => 6 end%Z.
+(* harness: cane.translate(str, warn=...) with the warnings recorded: [wf, result, number of warnings, kinds] *)
+Definition run_C07_warn (tt : N) (o : opts) (warn : bool) (s : str) : val :=
+  match lookup_tab tt tabs with
+  | None => VL [VB false; key_error]
+  | Some t => let (r, ws) := translate_w t o warn s in
+              VL [VB (wf_C07 t o s); VL [show_res r; VI (Z.of_nat (length ws)); VZs (map wkind_code ws)]]
+  end.
+
 (* ---------------------------------------------------------------- histories: several calls in one process.
    The model is pure, so every step is the model applied to the CURRENT value of the one persistent BioSeq object. *)
 Inductive hstep :=
@@ -324,7 +518,9 @@ Inductive hstep :=
 | HRev                                           (* seq.reverse() *)
 | HRepl (a b : byte)                             (* seq.str.replace(a, b) *)
 | HTrans (tt : N) (o : opts)                     (* seq.translate(...) in place *)
-| HBasket (tt : N) (o : opts) (ms : list (option str)).   (* BioBasket([... seq / BioSeq(<text>) ...]).translate(...); None = seq *)
+| HBasket (tt : N) (o : opts) (ms : list (option str))    (* BioBasket([... seq / BioSeq(<text>) ...]).translate(...); None = seq *)
+| HNop                                           (* read-only touches of gcode(tt), customising a COPY of it in place: no effect *)
+| HCli (args : list cli_arg) (s : str).          (* sugar.scripts.cli(['translate', ...options..., <text>]) *)
 (* the loop of BioBasket.translate over members that may be the shared object (None) or fresh objects *)
 Fixpoint basket_shared (t : gtab) (o : opts) (q : bioseq) (ms : list (option str))
   : bioseq * list (option bioseq) * option err :=
@@ -341,10 +537,6 @@ Fixpoint basket_shared (t : gtab) (o : opts) (q : bioseq) (ms : list (option str
       | inr e => (q, map (option_map bioseq_new) ms, Some e)
       end
   end.
-Definition opts_ok (t : gtab) (o : opts) : bool :=
-  gap_sym_ok t o && gap_after_ok o && match o_gap o with None => true | Some g => negb (is_nt g) end.
-Definition show_err (e : option err) : val := match e with None => VNone | Some _ => VS (bs "ValueError"%bs) end.
-Definition key_error : val := VE (bs "KeyError"%bs).
 (* one step: new state, what the driver observes, options in the domain *)
 Definition hist_step (q : bioseq) (h : hstep) : bioseq * val * bool :=
   match h with
@@ -377,6 +569,12 @@ Definition hist_step (q : bioseq) (h : hstep) : bioseq * val * bool :=
           let '(q', l, e) := basket_shared t o q ms in
           (q', VL [show_err e; VL (map (fun m => match m with None => show_seq q' | Some f => show_seq f end) l)], opts_ok t o)
       end
+  | HNop => (q, VNone, true)
+  | HCli args s =>
+      match lookup_tab (cli_tt args) tabs with
+      | None => (q, key_error, false)
+      | Some t => (q, VL [show_lines (script_str t (cli_opts args) s); show_seq q], opts_ok t (cli_opts args))
+      end
   end.
 Fixpoint hist_run (q : bioseq) (hs : list hstep) : list val * bool :=
   match hs with
@@ -386,7 +584,3 @@ Fixpoint hist_run (q : bioseq) (hs : list hstep) : list val * bool :=
 (* the persistent object is BioSeq(s, type='nt') *)
 Definition run_C07_hist (s : str) (hs : list hstep) : val :=
   let (vs, ok) := hist_run (bioseq_new s) hs in VL [VB ok; VL vs].
-Definition mk_opts (complete : bool) (check_start : option bool) (check_stop : bool) (final_stop : option bool)
-  (astop : byte) (gap : option byte) (gap_after : option Z) : opts :=
-  {| o_complete := complete; o_check_start := check_start; o_check_stop := check_stop; o_final_stop := final_stop;
-     o_astop := astop; o_gap := gap; o_gap_after := gap_after |}.
